@@ -47,6 +47,9 @@ func init() {
 
 func runC12(e *Engine, g G, o RunOpt) RunInfo {
 	sc := &c12Scenario{Client: DefaultClientOpts(), Server: DefaultNeg()}
+	if g.Pct("tls-close", 10) {
+		return runC12TLS(e, g, sc)
+	}
 	sc.Client.SM = g.Bool("sm")
 	sc.Server.SM = sc.Client.SM || g.Bool("srv-sm")
 	sc.Client.KeepaliveNs = int64([]time.Duration{30 * time.Second, 2 * time.Second, 7 * time.Minute}[g.N("keepalive", 3)]) + 1
@@ -378,4 +381,112 @@ func sharedCerts() *CertSet {
 		certsOnce = NewCertSet(SimDomain)
 	}
 	return certsOnce
+}
+
+// runC12TLS: the session runs inside TLS and the server ends it with its last stanzas: data
+// records, the close_notify alert and the FIN travel together (crypto/tls then returns the last
+// data together with io.EOF from one Read when the alert is not encrypted, i.e. before TLS 1.3).
+// Everything that was sent was completely received before the end.
+func runC12TLS(e *Engine, g G, sc *c12Scenario) RunInfo {
+	sc.Client.Insecure = false
+	sc.Client.TLS = TLSCfgRoots
+	sc.Client.Logger = g.Weighted("logger", 1, 3)
+	sc.Client.SM = g.Bool("sm")
+	sc.Client.KeepaliveNs = int64(30*time.Second) + 1
+	sc.Server.SM = sc.Client.SM
+	sc.Server.StartTLS = TLSRequired
+	sc.Server.Cert = CertGood
+	sc.Server.TLS12 = g.Pct("tls12", 65)
+	sc.CutKind = "tls-close"
+	sc.Seg, sc.LatencyNs = netModes(g, e)
+	n := g.Range("n", 1, 8)
+	sc.Inbound = GenInbound(g, n, InboundOpts{AllowEntity: true, AllowNested: true, IDPrefix: "in", OnlyStanzas: true})
+	perWrite := g.Range("stanzas-per-write", 1, 4)
+	sc.CutAt = lastEnd(sc.Inbound)
+
+	srv := NewServer(e, SimDomain)
+	srv.Certs = sharedCerts()
+	srv.Scripts = []NegScript{sc.Server}
+	w := NewCW(e, sc.Client, sharedCerts())
+	w.CatchAll()
+	established := false
+	var live []LiveTask
+	var kaAfter, kaCheck int
+	ka := time.Duration(sc.Client.KeepaliveNs)
+	e.Run(func() {
+		if err := w.Create(); err != nil {
+			return
+		}
+		err, _ := e.Call("Connect", w.Client.Connect)
+		if err != nil || len(srv.Conns) == 0 || !srv.Conns[0].TLS {
+			return
+		}
+		established = true
+		conn := srv.Conns[0]
+		e.Sleep(50 * time.Millisecond)
+		for i := 0; i < len(sc.Inbound); i += perWrite {
+			var b strings.Builder
+			for j := i; j < i+perWrite && j < len(sc.Inbound); j++ {
+				b.WriteString(sc.Inbound[j].Raw)
+			}
+			conn.Send(b.String())
+		}
+		conn.CloseTLS()
+		e.Fault("conn.tls_close_notify")
+		limit := 3*ka + time.Duration(sc.Client.ConnectTimeout+10)*time.Second
+		e.WaitUntilFor("await-disconnect", limit, func() bool {
+			return countState(w.Events, xmpp.StateDisconnected) > 0 && len(w.Errors) > 0
+		})
+		kaAfter = conn.Pipe.Cli.Writes
+		e.Sleep(3*ka + time.Duration(sc.Client.ConnectTimeout)*time.Second + time.Second)
+		kaCheck = conn.Pipe.Cli.Writes
+		live = e.LiveTasks()
+	})
+	info := RunInfo{Scenario: sc, Nontrivial: established}
+	if !established {
+		e.Probe("precondition_failed")
+		return info
+	}
+	e.Probe("c12.tls_close")
+	if sc.Server.TLS12 {
+		e.Probe("c12.tls12_close")
+	}
+	if e.Stuck != "" {
+		e.Violate("C12", "stuck", "%s", e.Stuck)
+	}
+	for _, p := range e.Panics {
+		e.Violate("C12", "panic", "%s: %s", p.Where, p.Value)
+	}
+	if nErr := len(w.Errors); nErr != 1 {
+		e.Violate("C12", fmt.Sprintf("error-callbacks=%s", cnt(nErr)), "expected exactly one ErrorHandler call after the server closed the TLS session, got %d: %v", nErr, w.Errors)
+	}
+	if nDisc := countState(w.Events, xmpp.StateDisconnected); nDisc != 1 {
+		e.Violate("C12", fmt.Sprintf("disconnected-events=%s", cnt(nDisc)), "expected exactly one Disconnected event after the server closed the TLS session, got %d", nDisc)
+	}
+	got := map[string]int{}
+	for _, h := range w.Handled {
+		got[h.Kind+"/"+h.ID]++
+	}
+	for _, el := range sc.Inbound {
+		key := el.Kind + "/" + el.ID
+		if got[key] != 1 {
+			e.Violate("C12", "received-stanza-not-routed-once", "%s was sent (and, TCP and TLS being ordered, received) before the server's close_notify but was routed %d times (TLS1.2-only server: %v, stream logger: %d)", key, got[key], sc.Server.TLS12, sc.Client.Logger)
+			break
+		}
+	}
+	if sc.Client.SM {
+		if ev := lastState(w.Events, xmpp.StateDisconnected); countState(w.Events, xmpp.StateDisconnected) == 1 && int(ev.Inbound) != len(sc.Inbound) {
+			e.Violate("C12", "event-smstate-inbound", "Disconnected event carries inbound count %d, %d stanzas were completely received", ev.Inbound, len(sc.Inbound))
+		}
+	}
+	if kaCheck != kaAfter {
+		e.Violate("C12", "keepalive-after-loss", "%d writes on the dead connection after the loss was reported", kaCheck-kaAfter)
+	}
+	for _, lt := range live {
+		if lt.Harness {
+			continue
+		}
+		e.Violate("C12", "goroutine-left:"+siteOf(lt), "library goroutine %s still alive after the loss (%s)\n%s", lt.Name, lt.Header, clip(lt.Stack, 1500))
+	}
+	return info
 }
